@@ -194,22 +194,10 @@ def perform(wt, root, name, args):
         raise AssertionError(name)
 
 
-def path_class(pre, flavour, p):
-    """Abstract class of a path argument in the spec pre-state: disk kind, versioned?, in basis?, (bzr) is the
-    basis identity of the path alive at another path."""
-    if p == "":
-        return "root"
-    d = pre["disk"].get(p, ("none",))[0][0]
-    v = "v" if pre["ver"].get(p, "no") != "no" else "u"
-    b = "b" if p in pre["basis"] else "-"
-    e = "e" if flavour == "bzr" and any(i == p and q != p for q, i in pre["ver"].items()) else ""
-    return d + v + b + e
-
-
-def signature(part, fmt, flavour, name, args, pre, exc=None):
-    """part that differs : tree format : action(abstract classes of its path arguments)[!exception class]"""
-    cls = [path_class(pre, flavour, a) if (a in UNIVERSE or a == "") else a for a in args]
-    return "%s:%s:%s(%s)%s" % (part, fmt, name, ",".join(cls), "!" + type(exc).__name__ if exc is not None else "")
+def signature(part, fmt, name, want_last, exc):
+    """part that differs : tree format : action : the model's outcome (ok | rejected:<rule of WorkingTree.tla that forbids
+    the call = abstract class of the pre-state>) : what the tree did (ok | exception class)"""
+    return "%s:%s:%s:model-%s:tree-%s" % (part, fmt, name, want_last, "ok" if exc is None else type(exc).__name__)
 
 
 def diff_text(got, want):
@@ -230,7 +218,6 @@ def replay_paths(sub, chunk):
         try:
             wt = WorkingTree.open(root)
             calls = []
-            pre = want_of(states[path[0][1]])
             ok = True
             for label, nid in path[1:]:
                 name, args = parse_action(label)
@@ -252,7 +239,7 @@ def replay_paths(sub, chunk):
                     wt = fresh_wt
                 for part, got, exp in (("view", live[0], want["view"]), ("changes", live[1], want["changes"])):
                     if got != exp:
-                        sub.violation(signature(part, fmt, flavour, name, args, pre, exc),
+                        sub.violation(signature(part, fmt, name, want["last"], exc),
                                       "%s tree after %s(%s) [%s]: %s differs from the model: %s" % (
                                           fmt, name, ", ".join(args), calls[-1][-1], part, diff_text(got, exp)), rep)
                         ok = False
@@ -261,7 +248,7 @@ def replay_paths(sub, chunk):
                     break
                 if fresh != live:
                     part = "view" if fresh[0] != live[0] else "changes"
-                    sub.violation(signature("reopen-" + part, fmt, flavour, name, args, pre),
+                    sub.violation(signature("reopen-" + part, fmt, name, want["last"], exc),
                                   "%s tree after %s(%s): a freshly opened tree reports a different %s: %s" % (
                                       fmt, name, ", ".join(args), part,
                                       diff_text(fresh[0], live[0]) if part == "view" else diff_text(fresh[1], live[1])), rep)
@@ -269,7 +256,7 @@ def replay_paths(sub, chunk):
                     break
                 if isinstance(exc, CRASHES):
                     sub.drift("%s %s(%s) raised %s (state as specified)" % (fmt, name, ", ".join(args), type(exc).__name__), rep)
-                if outcome != want["last"]:
+                if outcome != want["last"].split(":")[0]:
                     sub.drift("%s %s(%s) %s, model says %s (projection as specified)" % (
                         fmt, name, ", ".join(args), calls[-1][-1], want["last"]), rep)
                 dk = disk_of(root, paths)
@@ -277,7 +264,6 @@ def replay_paths(sub, chunk):
                     sub.drift("%s %s(%s): file system differs from the model: %s" % (
                         fmt, name, ", ".join(args), diff_text(dk, want["disk"])), rep)
                     break
-                pre = want
             sub.count(1, traces=1)
             if len(calls) > 1:
                 sub.nontrivial((fmt, init, tuple(tuple(c) for c in calls)))
